@@ -318,18 +318,22 @@ func (da *DistributedAllocator) Release(ctx context.Context, subscriberID string
 	da.mu.Lock()
 	defer da.mu.Unlock()
 
-	// Release from appropriate allocator
-	if da.mode == PoolModeLease {
-		if err := da.epochAllocator.Release(ctx, subscriberID); err != nil {
-			return err
-		}
-	} else {
-		if err := da.allocator.Release(subscriberID); err != nil {
-			return err
-		}
+	// Session mode reports an unknown subscriber without touching the store
+	if da.mode != PoolModeLease && da.allocator.Lookup(subscriberID) == nil {
+		return da.allocator.Release(subscriberID)
 	}
 
-	return da.deleteAllocation(ctx, subscriberID)
+	// Remove the record from the store first: if that fails nothing has changed,
+	// memory and store still agree and the caller can retry
+	if err := da.deleteAllocation(ctx, subscriberID); err != nil {
+		return err
+	}
+
+	// Release from appropriate allocator
+	if da.mode == PoolModeLease {
+		return da.epochAllocator.Release(ctx, subscriberID)
+	}
+	return da.allocator.Release(subscriberID)
 }
 
 // Get returns the allocation for a subscriber.
